@@ -599,6 +599,14 @@ func DiffLocus(a, b reflect.Value) (path, locus, vclass string) {
 	if t != nil {
 		push()
 	}
+	// a difference AT a non-nil pointer whose pointee is a nil pointer (a **T with nil inner pointer) is identified
+	// by that input shape alone, wherever the **T sits: the schema [null,T] has one null level (see the recorded
+	// known finding), and the container around it is irrelevant
+	if n := len(vals); n > 0 {
+		if last := vals[n-1]; last.IsValid() && last.Kind() == reflect.Ptr && !last.IsNil() && last.Elem().Kind() == reflect.Ptr && last.Elem().IsNil() {
+			return path, "ptr", "&nil"
+		}
+	}
 	if len(chain) > 2 {
 		chain = chain[len(chain)-2:]
 		vals = vals[len(vals)-2:]
